@@ -42,7 +42,7 @@ theorem isAbs_joinPath (root p : Str) (hr : isAbs root = true) : isAbs (joinPath
 /-- how a path given in a unit file is resolved against an absolute directory -/
 theorem C17_resolve (cwd dir p : Str) (hd : isAbs dir = true) :
     absoluteFrom cwd dir p =
-      if startsWithSpecifier p then cleaned p
+      if startsWithSpecifier p then p
       else if isAbs p then Spec.clean p
       else Spec.clean (joinPath dir p) := by
   have hne : dir.isEmpty = false := by cases dir <;> simp_all [isAbs]
@@ -63,6 +63,13 @@ theorem C17_absolute (cwd dir p : Str) (hd : isAbs dir = true) (hs : startsWithS
   · rename_i ha; rw [← C17_clean_eq_spec p ha]; exact (C17_clean_normal p ha).choose_spec.2.2
   · have := isAbs_joinPath dir p hd
     rw [← C17_clean_eq_spec _ this]; exact (C17_clean_normal _ this).choose_spec.2.2
+
+/-- a path that starts with a specifier is not resolved at all: it comes back as it was written, so what it begins with is still the
+    specifier (D23: it used to be normalised, and `%h/../x` became the relative path `x`) -/
+theorem C17_specifier_kept (cwd dir p : Str) (hs : startsWithSpecifier p = true) : absoluteFrom cwd dir p = p := by
+  unfold absoluteFrom; simp [hs]
+
+example : absoluteFrom "/cwd".toList "/q".toList "%h/../x".toList = "%h/../x".toList := by decide
 
 /-- the generator's current directory plays no role when the directory is not empty -/
 theorem C17_no_cwd (cwd₁ cwd₂ dir p : Str) (hd : dir.isEmpty = false) :
